@@ -83,3 +83,30 @@ void wl_maybe_yield(uint64_t h, int yield_pm) {
     }
   } else mvsim_user_point();
 }
+
+/* Warm-up (build flavour "mem" only): the first simulated run of a process executes one-time lazy paths of the
+   library (first-use initialisations), which are invisible at hook granularity but add memory-access schedule
+   points.  One small throw-away run at process start takes them out of the first counted run, so that a run's
+   events do not depend on its position in the batch and a replay file reproduces in a fresh process. */
+static void warm_dtor(void *v) { (void)v; }
+static myth_key_t warm_key;
+static void *warm_child(void *a) { myth_yield(); if ((long)a == 3) { myth_setspecific(warm_key, a); myth_exit(a); } if ((long)a == 4) { for (;;) { myth_testcancel(); myth_yield(); } } return a; }
+void mvh_warmup(void) {
+  mvsim_runcfg cfg; mvsim_default_cfg(&cfg, 0x5eedULL);
+  mvsim_runstats st; memset(&st, 0, sizeof st);
+  wl_begin(&cfg, 8, 32, 64, 0);
+  myth_thread_t t = myth_create(warm_child, (void *)1L); void *r = 0; myth_join(t, &r);
+  myth_thread_attr_t a; myth_thread_attr_init(&a); myth_thread_attr_setstacksize(&a, 65536 + 1);
+  myth_create_ex(&t, &a, warm_child, (void *)2L); myth_join(t, &r);
+  myth_key_t k; if (myth_key_create(&k, 0) == 0) { myth_setspecific(k, &k); (void)myth_getspecific(k); myth_setspecific(k, 0); myth_key_delete(k); }
+  if (myth_key_create(&warm_key, warm_dtor) == 0) {
+    t = myth_create(warm_child, (void *)3L); myth_join(t, &r);
+    t = myth_create(warm_child, (void *)4L); myth_yield(); myth_cancel(t); myth_join(t, &r);
+    myth_key_delete(warm_key);
+  }
+  myth_mutex_t m; myth_mutex_init(&m, 0); myth_mutex_lock(&m); myth_mutex_unlock(&m); myth_mutex_destroy(&m);
+  myth_cond_t c; myth_cond_init(&c, 0); myth_cond_signal(&c); myth_cond_destroy(&c);
+  myth_barrier_t b; myth_barrier_init(&b, 0, 1); myth_barrier_wait(&b); myth_barrier_destroy(&b);
+  myth_usleep(1);
+  wl_end(&st, 1);
+}
